@@ -47,7 +47,7 @@ func init() {
 		[]string{"success/failure is only judged outside the narrow band where the outcome depends on the exact fee estimate", "staking/binding building requests are exercised through C19's request products and C10's withdrawals, not re-checked clause by clause here"})
 	checks["C03"] = c02Check("C03", map[string]bool{"sign": true}, shapes+
 		"x transactions built by the wallet (automatic selection with 1..n inputs over several addresses, with/without payload and lock time, plus withdrawals of withdrawable staking/binding deposits) x 6 sighash flags: with the right passphrase the returned bytes decode to the same transaction with only the witnesses filled in, and every input passes an INDEPENDENT run of the consensus script engine (standard flags, MASSip2 where due) against the output it spends; "+
-		"with 7 wrong passphrases (empty, other wallet's, public, one char longer/shorter, case variant, neighbour), before and after a successful unlock, signing fails, returns no bytes and leaves no witness in the transaction; distinct_nontrivial = distinct (shape, family) answer profiles",
+		"with 13 wrong passphrases (empty, other wallet's, public, one char longer/shorter, case variant, neighbour, the right one padded with blank/newline/tab/CRLF, doubled), before and after a successful unlock, signing fails, returns no bytes and leaves no witness in the transaction; distinct_nontrivial = distinct (shape, family) answer profiles",
 		[]string{"SINGLE flags on transactions with fewer outputs than inputs are not required to sign every input", "pending-parent inputs are covered through the pending-spent shape only"})
 	_ = strings.TrimSpace
 }
